@@ -9,8 +9,12 @@ pronunciations, the triphone->senone-sequence map taken straight from bin_mdef, 
 penalties; `ssdriver c02` builds the flat network with the model's own `FlatNet.build` and runs the model's own
 `Viterbi.viterbiArr`.  Oracle = the property on the implementation: in the no-pruning regime the score
 `decoder_hyp` reports must EQUAL the optimum, with default beams it must not exceed it.
+History family (wave 5): the judged utterance is the 2nd-4th one on its decoder / search object (`gen_history`, harness `pre` lines);
+Props/C02Finish.lean proves that fsg_search_finish restores the initial search state after any history, `finish_tie` evaluates that
+conclusion on the real object after every utterance.
 """
 import json, os, re
+from pathlib import Path
 import vlib
 
 LANGS = {"en-us": {"audio": "tests/data/goforward.raw"}, "fr-fr": {"audio": "tests/data/goforward_fr.raw"}}
@@ -251,6 +255,11 @@ def case_text(case):
     if a[0] == "file":
         a[1] = str(vlib.REPO / a[1]) if not os.path.isabs(a[1]) else a[1]
     out.append("audio " + " ".join(str(x) for x in a))
+    for q in case.get("history", []):      # earlier utterances on the same decoder / search object (history family)
+        q = list(q)
+        if q[0] == "file":
+            q[1] = str(vlib.REPO / q[1]) if not os.path.isabs(q[1]) else q[1]
+        out.append("pre " + " ".join(str(x) for x in q))
     for p in case.get("probes", []):
         out.append(f"probe {p}")
     if case.get("detail") is not None:
@@ -297,6 +306,11 @@ def parse_harness(out):
             cur.setdefault("partial", []).append(w[1:])
         elif w[0] == "YD":
             cur.setdefault("detail", []).append(" ".join(w[1:]))
+        elif w[0] == "PRE" and len(w) == 7:      # earlier utterance: index, frames searched, score|none, hyp, pnodes not cleared, lists left
+            cur.setdefault("pre", []).append({"frames": int(w[2]), "score": None if w[3] == "none" else int(w[3]), "hyp": w[4],
+                                              "dirty": int(w[5]), "lists": int(w[6])})
+        elif w[0] == "PZ" and len(w) == 3:       # after fsg_search_finish of the judged utterance
+            cur["pz"] = {"dirty": int(w[1]), "lists": int(w[2])}
         elif w[0] == "end":
             cur["done"] = True
     return res
@@ -330,7 +344,8 @@ def parse_search_driver(out):
                       "cover": d.get("cover"), "emagree": d.get("emagree"),
                       "flat": None if d.get("flat", "none") == "none" else int(d["flat"]),
                       "beam_score": None if d.get("beamsearch", "none") == "none" else int(d["beamsearch"]),
-                      "beam_exit_frame": int(d.get("beamexit", "-2")), "tablesagree": d.get("tablesagree") == "true"})
+                      "beam_exit_frame": int(d.get("beamexit", "-2")), "tablesagree": d.get("tablesagree") == "true",
+                      "sidecond": {k: d.get(k) for k in ("leafctx", "fillersingle", "ctxrange")}})
     return res
 
 
@@ -368,17 +383,46 @@ def run_driver_retry(text, timeout, sub="c02"):
     return vlib.run_driver(sub, text, timeout=timeout)
 
 
+def filler_all_rc():
+    """does fsg_search_pnode_exit (as it is in the tree under test) let a FILLER leave to every right context whatever its length?
+    True for the code as it is (`fsg_model_is_filler(...) || dict_is_single_phone(...)`), False with fix D110 (only
+    `dict_is_single_phone(...)`): the scoring model and the theorems have both variants (SearchScore.Env.anyRc, LexCover.envOfG)."""
+    src = (vlib.REPO / "src" / "fsg_search.c").read_text()
+    i = src.find("fsg_search_pnode_exit(fsg_search_t")
+    j = src.find("fsg_pnode_add_all_ctxt(&ctxt)", i) if i >= 0 else -1
+    seg = src[i:j] if i >= 0 and j >= 0 else ""
+    return not ("dict_is_single_phone" in seg and "fsg_model_is_filler" not in seg)
+
+
+def model_dir(lang, noisedict, where):
+    """the acoustic model directory the harness is given; a case may bring its own noise dictionary (`noisedict`: list of lines),
+    then a copy of the directory (links) with that `noisedict.txt`"""
+    base = vlib.REPO / "model" / lang
+    if not noisedict:
+        return base
+    import tempfile
+    d = Path(tempfile.mkdtemp(prefix="c02-model-", dir=str(where)))
+    for f in base.iterdir():
+        if f.name != "noisedict.txt":
+            os.symlink(f, d / f.name)
+    (d / "noisedict.txt").write_text("\n".join(noisedict) + "\n")
+    return d
+
+
 def run_cases(binp, dictfile, cases, timeout=1200):
     text = "".join(case_text(c) for c in cases)
     binp = vlib.build_harness("h_c02")     # other runs may have pruned the build cache in the meantime
     lang = cases[0].get("lang", "en-us")       # one acoustic model per harness process
     assert all(c.get("lang", "en-us") == lang for c in cases)
+    assert all(c.get("noisedict") == cases[0].get("noisedict") for c in cases)
     df = dictfile[lang] if isinstance(dictfile, dict) else dictfile
-    rc, out, err = vlib.run_bin(binp, [str(vlib.REPO / "model" / lang), str(df)], stdin_text=text, timeout=timeout)
+    mdir = model_dir(lang, cases[0].get("noisedict"), Path(df).parent)
+    rc, out, err = vlib.run_bin(binp, [str(mdir), str(df)], stdin_text=text, timeout=timeout)
     rc2, mout, merr = run_driver_retry(out, timeout)
     ms = parse_driver(mout)
     # the scoring model of the unpruned token-passing search, run on the same dump (real lextree, recorded senone scores)
-    rc3, sout, serr = run_driver_retry(out, timeout, sub="c02s")
+    sin = out if filler_all_rc() else re.sub(r"(?m)^(case \S+)$", r"\1\nOPT fillerallrc 0", out)
+    rc3, sout, serr = run_driver_retry(sin, timeout, sub="c02s")
     for cid, sr in parse_search_driver(sout).items():
         if cid in ms:
             ms[cid]["search"] = sr
@@ -411,7 +455,7 @@ def verdict(case, h, m):
         return kind, detail
     if m.get("lextree", True):
         if kind.startswith("ok") or kind == "finding-partial":
-            bad = search_tie(h, m)
+            bad = finish_tie(case, h) or search_tie(h, m)
             if bad:
                 return "search-mismatch", bad
         return kind, detail
@@ -420,6 +464,65 @@ def verdict(case, h, m):
     if kind.startswith("violation"):
         return kind, f"{detail}; lextree differs from the model: {diff}"
     return "lextree-mismatch", diff
+
+
+def finish_tie(case, h):
+    """what `C02_finish_restores_initial` (Props/C02Finish.lean) concludes of the model, evaluated on the real search object: after
+    fsg_search_finish of EVERY utterance (the earlier ones of a history case and the judged one) every HMM of the lextree is in the state
+    hmm_clear() leaves (all scores WORST_SCORE, frame stamp < 0) and both active lists are empty — the state fsg_search_start assumes of the
+    HMMs it does not enter, so that the next utterance on the same search object starts like the first.  Also: every earlier utterance
+    the case asked for was run."""
+    pre = h.get("pre", [])
+    if len(pre) != len(case.get("history", [])):
+        return {"what": "not every earlier utterance of the history case was run", "asked": len(case.get("history", [])), "ran": len(pre)}
+    for i, q in enumerate(pre):
+        if q["dirty"] or q["lists"]:
+            return {"what": "after the end of an earlier utterance on the same search object (decoder_end_utt -> fsg_search_finish) some lextree "
+                            "HMMs are not in the cleared state / an active list is not empty: the next utterance does not start from the "
+                            "initial search state", "earlier_utterance": i, "frames_searched": q["frames"], "pnodes_not_cleared": q["dirty"],
+                    "active_lists_left": q["lists"]}
+    z = h.get("pz")
+    if z and (z["dirty"] or z["lists"]):
+        return {"what": "after fsg_search_finish of the judged utterance some lextree HMMs are not in the cleared state / an active list is "
+                        "not empty", "frames_searched": h["T"], "pnodes_not_cleared": z["dirty"], "active_lists_left": z["lists"]}
+    return None
+
+
+# ----------------------------------------------------------------------------------------------
+# history family: the judged utterance is the k-th one on its decoder
+
+def gen_history(rng, lang="en-us"):
+    """1-3 earlier utterances of adversarial lengths, decoded on the same decoder and the same search object before the judged one:
+    zero frames (no audio at all / start_utt directly followed by end_utt), every length around the frames in which lextree nodes are
+    first entered (3 frames per phone: 1..14 frames, three sample-count residues so that both k*160 and k*160+250 samples occur),
+    excerpts cut mid-word (15..60 frames), short noise, and normal utterances."""
+    apath = LANGS[lang]["audio"]
+    total = (vlib.REPO / apath).stat().st_size // 2
+    hist = []
+    for _ in range(rng.weighted([(1, 50), (2, 30), (3, 20)])):
+        kind = rng.weighted([("phone-entry-length", 50), ("zero", 12), ("cut-mid-word", 18), ("noise", 10), ("normal", 10)])
+        if kind == "zero":
+            hist.append(["empty"] if rng.chance(0.5) else ["file", apath, 0, rng.choice([0, 100, 250])])
+            continue
+        if kind == "phone-entry-length":
+            ns = rng.range(1, 14) * 160 + rng.choice([0, 90, 250])
+        elif kind == "cut-mid-word":
+            ns = rng.range(15, 60) * 160 + rng.choice([0, 250])
+        elif kind == "noise":
+            hist.append(["noise", rng.below(1 << 30), rng.range(1, 14) * 160 + rng.choice([0, 250]), rng.choice([30, 300, 3000])])
+            continue
+        else:
+            ns = rng.range(60, 140) * 160 + 250
+        hist.append(["file", apath, rng.below(max(1, total - ns)), ns])
+    return hist
+
+
+def gen_history_case(rng, dic, vocab, cid, tier, lang="en-us"):
+    """a generated case of any shape (mostly wide beams, so that the exact-optimum oracle applies to the judged utterance; otherwise
+    the <= clause and the per-frame tie with beams judge it) preceded by a generated history"""
+    case = gen_case(rng, dic, vocab, cid, tier, beams=rng.weighted([("wide", 80), ("default", 12), ("medium", 8)]), lang=lang)
+    case["history"] = gen_history(rng, lang)
+    return case
 
 
 def in_regime(m):
@@ -439,11 +542,18 @@ def search_tie(h, m):
         return None
     if "error" in sr:
         return {"what": "the search model could not run on the dump", "error": sr["error"]}
-    # structural, independent of beams: the model's flat network covers the real lextree read as a network (the two decidable
-    # hypotheses coverB / emAgreeB of C02_unpruned_search_is_dp_partial, evaluated by the driver with the model's own definitions)
+    # the decidable side conditions of C02_unpruned_search_is_dp (Props/C02Cover.lean, the certificate-free theorem): a filler word has one
+    # phone, the phones fit the context bit vectors; plus leafCtxB (proved for buildLexTree, leafCtxB_build) on the real lextree: every leaf
+    # pnode has a context bit
+    sc = sr.get("sidecond") or {}
+    if any(sc.get(k) != "true" for k in ("leafctx", "fillersingle", "ctxrange")):
+        return {"what": "a side condition of C02_unpruned_search_is_dp (leafCtxB on the real lextree / fillerSingleB / ctxRangeB on the "
+                        "model, Model/LexCoverHyps.lean) does not hold", "values": sc}
+    # cross-check, independent of beams: the untrusted certificate search still finds a cover of the real lextree network by the model's
+    # flat network (coverB / emAgreeB, C02_unpruned_search_is_dp_partial) -- since round 3 a consequence of C02_lextree_optimum_is_flat_optimum
     if sr.get("cover") != "true" or sr.get("emagree") != "true":
-        return {"what": "cover certificate: the flat network of the model does not cover the real lextree read as a network "
-                        "(hypotheses of C02_unpruned_search_is_dp_partial)", "coverB": sr.get("cover"), "emAgreeB": sr.get("emagree")}
+        return {"what": "cover certificate (cross-check of C02_lextree_optimum_is_flat_optimum): the flat network of the model does not cover "
+                        "the real lextree read as a network", "coverB": sr.get("cover"), "emAgreeB": sr.get("emagree")}
     if sr.get("flat") != m["opt"]:
         return {"what": "the two drivers disagree on the optimum of the flat network", "c02s": sr.get("flat"), "c02": m["opt"]}
     if not (sr.get("data") and sr.get("chains")):
@@ -568,6 +678,8 @@ def shrink(c, binp, dictfile, case, kind):
             break
     trans = vlib.ddmin(cur["trans"], lambda sub: still(dict(cur, trans=sub)), max_tests=budget[0])
     cur = dict(cur, trans=trans)
+    if len(cur.get("history") or []) >= 2:      # history family: fewer earlier utterances
+        cur = dict(cur, history=vlib.ddmin(cur["history"], lambda sub: still(dict(cur, history=sub)), max_tests=max(1, budget[0])))
     for k in ("fsgusefiller", "fsgusealtpron"):
         cand = dict(cur, cfg=dict(cur["cfg"], **{k: "no"}))
         if cur["cfg"].get(k) == "yes" and still(cand):
@@ -602,6 +714,9 @@ def report(c, binp, dictfile, dic, vocab, case, kind, detail, finding_key=None):
             ns = c.rng.range(20, 120) * 160 + 250
             tries.append(dict(small, id=f"{small['id']}x{i}", beams="wide", cfg=dict(small["cfg"], beam="0", pbeam="0", wbeam="0"),
                               audio=["file", LANGS[small.get("lang", "en-us")]["audio"], c.rng.below(max(1, total - ns)), ns]))
+            if i % 2 and len(small.get("history") or []) < 4:
+                # ... also as the NEXT utterance on the same search object: the case's own audio becomes an earlier utterance
+                tries[-1]["history"] = list(small.get("history") or []) + [list(small["audio"])]
         (rc3, hs3, err3), (_, ms3, _) = run_cases(binp, dictfile, tries)
         for t in tries:
             k3, d3 = verdict(t, hs3.get(t["id"]), ms3.get(t["id"]))
@@ -893,6 +1008,13 @@ def check(c):
         cases.append(gen_case(c.rng, dic["en-us"], vocab["en-us"], f"g{i}", c.tier))
     for i in range(20 if c.tier == "quick" else 300):      # second acoustic model / phone set / dictionary
         cases.append(gen_case(c.rng, dic["fr-fr"], vocab["fr-fr"], f"fr{i}", c.tier, lang="fr-fr"))
+    # history family: the judged utterance is the 2nd-4th utterance on its decoder / search object (the clause 'reported score = optimum'
+    # holds for every utterance of a decoder history, not only the first); drawn after the families above so that their cases are unchanged
+    nhist = (30, 6) if c.tier == "quick" else (500, 60)
+    for i in range(nhist[0]):
+        cases.append(gen_history_case(c.rng, dic["en-us"], vocab["en-us"], f"hist{i}", c.tier))
+    for i in range(nhist[1]):
+        cases.append(gen_history_case(c.rng, dic["fr-fr"], vocab["fr-fr"], f"frhist{i}", c.tier, lang="fr-fr"))
     if c.tier == "thorough":
         for i in range(60):   # full recording, default and wide beams
             cases.append(gen_case(c.rng, dic["en-us"], vocab["en-us"], f"full{i}", c.tier, beams=("default" if i % 2 else "wide"), frames=278))
@@ -900,6 +1022,7 @@ def check(c):
     cases.sort(key=lambda cs: (not cs["id"].startswith("corpus"), cs.get("lang", "en-us") != "en-us"))
     allok, nontrivial, nviol, nfind, lexok, nlex = True, set(), 0, 0, True, 0
     searchok, nsearch = True, 0
+    finishok = True
     stats["search_tie"] = {"cover_certificates_checked": 0, "cases_compared": 0, "frames_compared": 0, "cases_outside_regime": 0, "history_entries": 0, "pnodes": 0}
     B = 30
     batches = []
@@ -926,6 +1049,26 @@ def check(c):
             pk = "none" if not case.get("probes") else ("before-finish" if case["probes"] == [-1] else
                                                         ("mid-utterance+before-finish" if -1 in case["probes"] else "mid-utterance"))
             stats.setdefault("result_queries_before_the_final_one", {})[pk] = stats.setdefault("result_queries_before_the_final_one", {}).get(pk, 0) + 1
+            if h and h.get("pz") is not None:
+                stats["finish_checks_(utterances_after_which_every_pnode_was_inspected)"] = stats.get("finish_checks_(utterances_after_which_every_pnode_was_inspected)", 0) + 1 + len(h.get("pre", []))
+            if case.get("history"):
+                hf = stats.setdefault("history_family", {"cases": 0, "earlier_utterances_per_case": {}, "frames_searched_in_earlier_utterances": {},
+                                                         "earlier_utterance_kind": {}, "earlier_utterance_result": {}, "judged_verdicts": {},
+                                                         "judged_beams": {}, "judged_in_no_pruning_regime": 0})
+                hf["cases"] += 1
+                nk = str(len(case["history"]))
+                hf["earlier_utterances_per_case"][nk] = hf["earlier_utterances_per_case"].get(nk, 0) + 1
+                for q in case["history"]:
+                    hf["earlier_utterance_kind"][q[0]] = hf["earlier_utterance_kind"].get(q[0], 0) + 1
+                for q in (h or {}).get("pre", []):
+                    fk = str(q["frames"]) if q["frames"] <= 15 else ("16-60" if q["frames"] <= 60 else ">60")
+                    hf["frames_searched_in_earlier_utterances"][fk] = hf["frames_searched_in_earlier_utterances"].get(fk, 0) + 1
+                    rk_ = "no-result" if q["score"] is None else ("fillers-only" if q["hyp"] == "-" else "words")
+                    hf["earlier_utterance_result"][rk_] = hf["earlier_utterance_result"].get(rk_, 0) + 1
+                hf["judged_verdicts"][kind] = hf["judged_verdicts"].get(kind, 0) + 1
+                hf["judged_beams"][case["beams"]] = hf["judged_beams"].get(case["beams"], 0) + 1
+                if m and "error" not in m and in_regime(m):
+                    hf["judged_in_no_pruning_regime"] += 1
             nn = sum(1 for t in case["trans"] if not t[3])
             stats["cfg"]["grammars_with_null_arcs"] = stats["cfg"].get("grammars_with_null_arcs", 0) + (1 if nn else 0)
             if m and "error" not in m:
@@ -938,6 +1081,8 @@ def check(c):
                 sr = m.get("search")
                 if sr and sr.get("cover") == "true" and sr.get("emagree") == "true":
                     stats["search_tie"]["cover_certificates_checked"] += 1
+                if sr and all((sr.get("sidecond") or {}).get(k) == "true" for k in ("leafctx", "fillersingle", "ctxrange")):
+                    stats["search_tie"]["side_conditions_hold"] = stats["search_tie"].get("side_conditions_hold", 0) + 1
                 if sr and "error" not in sr and m["skipcons"] and (m["minval"] is None or m["minval"] > -536870912 + 33023) \
                         and (kind.startswith("ok") or kind in ("search-mismatch", "finding-partial")):
                     stats["search_tie"]["cases_compared_with_beams"] = stats["search_tie"].get("cases_compared_with_beams", 0) + 1
@@ -970,7 +1115,10 @@ def check(c):
                 nlex += 1
                 continue
             if kind == "search-mismatch":
-                searchok = False
+                if isinstance(detail, dict) and "pnodes_not_cleared" in detail:
+                    finishok = False
+                else:
+                    searchok = False
                 if nsearch < 1:
                     report(c, binp, dictfile, dic, vocab, case, kind, detail)
                 nsearch += 1
@@ -1001,9 +1149,21 @@ def check(c):
              "fsg_search_find_exit (SearchScore, theorem C02_unpruned_search_is_tree_dp) reproduces every frame of the real search "
              "(bestscore, active HMMs and all their state/exit scores, word-exit and null-arc history entries per right context) and its result; "
              "on EVERY case (any beams, inside or outside the no-pruning regime) the scoring model run WITH the search's beams (searchFrameBeam) "
-             "reproduces every frame of the real pruned search and its result, and the decidable hypotheses coverB / emAgreeB of C02_unpruned_search_is_dp_partial hold for the model's flat "
-             "network over the real lextree",
+             "reproduces every frame of the real pruned search and its result; the two decidable side conditions of the certificate-free theorem "
+             "C02_unpruned_search_is_dp (Props/C02Cover.lean: lextree-network optimum = flat-network optimum for the lextree buildLexTree builds, for every FSG / "
+             "dictionary / tables with lexHypsB) hold on every case: fillerSingleB and ctxRangeB on the model (fillerSingleB is necessary for the code as it is: "
+             "defect D110); leafCtxB, which is proved for buildLexTree (leafCtxB_build), also holds on the real lextree; and, as a cross-check only, the per-case "
+             "cover certificate coverB / emAgreeB (C02_unpruned_search_is_dp_partial) is still found and accepted on the real lextree",
              searchok, dict(stats["search_tie"], mismatching_cases=nsearch))
+    c.oblige("end-of-utterance correspondence: after fsg_search_finish of EVERY utterance the check ran (the 1-3 earlier utterances of the history "
+             "family — 0 frames, every length around the phone-entry frames, cut mid-word, noise, normal — and every judged utterance) every pnode "
+             "HMM of the real lextree is in the state hmm_clear() leaves and both active lists are empty: the conclusion of "
+             "C02_finish_clears_every_hmm / C02_finish_restores_initial / C02_kth_utterance_runs_as_first (Props/C02Finish.lean: for every history of "
+             "utterances the next one runs frame for frame like runSearchBeam on a fresh object) evaluated on the real search object; the judged "
+             "utterance of every history case is then compared frame by frame with the scoring model started from the cleared state and judged by "
+             "the exact-optimum oracle", finishok,
+             {"utterances_inspected": stats.get("finish_checks_(utterances_after_which_every_pnode_was_inspected)", 0),
+              "history_family": stats.get("history_family", {})})
     c.oblige("oracle on the implementation: reported score = model optimum in the no-pruning regime, <= optimum otherwise, "
              "on every corpus and generated case", allok, stats["verdicts"])
 
@@ -1020,6 +1180,8 @@ def check(c):
                   "lextree_structures_compared": stats.get("lextree_compared", 0),
                   "token_passing_tie": stats["search_tie"],
                   "result_queries_before_the_final_one": stats.get("result_queries_before_the_final_one", {}),
+                  "history_family": stats.get("history_family", {}),
+                  "finish_checks_(utterances_after_which_every_pnode_was_inspected)": stats.get("finish_checks_(utterances_after_which_every_pnode_was_inspected)", 0),
                   "vocabulary_size": {k: len(v) for k, v in vocab.items()}, "acoustic_models": stats["langs"],
                   "unit_ops": stats.get("unit_ops"), "hmm_ops_also_checked_against_max_plus": stats.get("hmm_ideal_checked"),
                   "hmm_skip_flags_(0->2,1->3)": {str(k): v for k, v in stats["hmm_skip"].items()},
@@ -1039,7 +1201,7 @@ def replay(c, path):
     case = obj["case"]
     lang = case.setdefault("lang", "en-us")
     dic = load_dict(lang)
-    vocab = sorted({t[3] for t in case["trans"] if t[3]} | ({"go"} if lang == "en-us" else {"de"}))
+    vocab = obj.get("vocab") or sorted({t[3] for t in case["trans"] if t[3]} | ({"go"} if lang == "en-us" else {"de"}))
     dictfile = c.scratch / "c02.dict"
     write_dict(dictfile, dic, vocab)
     (rc, hs, err), (rc2, ms, _) = run_cases(binp, dictfile, [case])
